@@ -59,7 +59,7 @@ theorem caseStep_c (cx : Cx) (fuel : Nat) (endL : Nat) (bp : BP) (hpos : bp.posi
       st'.caseOps = st.caseOps ++ ([LItem.label sL false] ++ ops ++ [LItem.label eB false]) ∧ st'.defaultOps = d1 ∧
       WaitSem cx fuel sL st.waiting hs st.defaultOps d1 ∧
       (∀ env', EnvOK cx env' → PieceOK cx ops sa sb (fun k b => Src.trStmts fuel [] env' (toSrcStmts body) k b) env') ∧
-      sa.loops = s.loops ∧ sa.cases = endL :: s.cases := by
+      sa.loops = s.loops ∧ sa.cases = endL :: s.cases ∧ NamedLe sb s' := by
   unfold caseStep at h
   simp only [Bool.false_eq_true, ↓reduceIte, bind_ok, pushCase_ok, popCase_ok] at h
   obtain ⟨u1, s1, h1, blk, s2, h2, u2, s3, h3, h4⟩ := h
@@ -84,12 +84,13 @@ theorem caseStep_c (cx : Cx) (fuel : Nat) (endL : Nat) (bp : BP) (hpos : bp.posi
       exact ⟨n, by simp [hpos]⟩
   obtain ⟨n, hhdr⟩ := hhdr
   have hstk : SameStk s s2.popCase := by
-    refine ⟨?_, ?_⟩
+    refine ⟨?_, ?_, fun n id h => e2.3 n id (hP0.named n id h)⟩
     · show s2.loops = s.loops
       rw [e2.1, hP0.loops]; rfl
     · show s2.cases.tail = s.cases
       rw [e2.2, hP0.cases]; rfl
-  refine ⟨hstk.trans e5, rfl, hs', dops', sL, eB, ops, _, sb, n, ?_, ?_, rfl, ws, hP, rfl, rfl⟩
+  refine ⟨hstk.trans e5, rfl, hs', dops', sL, eB, ops, _, sb, n, ?_, ?_, rfl, ws, hP, rfl, rfl,
+    fun n id h => e5.3 n id (e2.3 n id h)⟩
   · simp only [hhdr, List.append_assoc]
   · simp only [hitems]
 
@@ -103,7 +104,7 @@ theorem defaultStep_c (cx : Cx) (fuel : Nat) (endL : Nat) (body : Stmts) {bodyM 
       st'.caseOps = st.caseOps ++ ([LItem.label sL false] ++ ops ++ [LItem.label eB false]) ∧ st'.defaultOps = d1 ∧
       WaitSem cx fuel sL st.waiting hs [LItem.ljump ⟨n0, Gen.op_jump, []⟩ (some sL)] d1 ∧
       (∀ env', EnvOK cx env' → PieceOK cx ops sa sb (fun k b => Src.trStmts fuel [] env' (toSrcStmts body) k b) env') ∧
-      sa.loops = s.loops ∧ sa.cases = endL :: s.cases := by
+      sa.loops = s.loops ∧ sa.cases = endL :: s.cases ∧ NamedLe sb s' := by
   unfold defaultStep at h
   simp only [Bool.false_eq_true, ↓reduceIte, bind_ok, pushCase_ok, popCase_ok] at h
   obtain ⟨u1, s1, h1, blk, s2, h2, u2, s3, h3, h4⟩ := h
@@ -122,12 +123,13 @@ theorem defaultStep_c (cx : Cx) (fuel : Nat) (endL : Nat) (body : Stmts) {bodyM 
   have hP := fun env' he' => hBody env' he' _ _ _ hrun
   have hP0 := hP {} (envOK_empty cx)
   have hstk : SameStk s s2.popCase := by
-    refine ⟨?_, ?_⟩
+    refine ⟨?_, ?_, fun n id h => e2.3 n id (hP0.named n id h)⟩
     · show s2.loops = s.loops
       rw [e2.1, hP0.loops]; rfl
     · show s2.cases.tail = s.cases
       rw [e2.2, hP0.cases]; rfl
-  exact ⟨(hstk.trans (sameStk_tickedOp _ _)).trans e6, rfl, hs', dops', sL, eB, ops, _, sb, _, rfl, by simp only [hitems], rfl, ws, hP, rfl, rfl⟩
+  exact ⟨(hstk.trans (sameStk_tickedOp _ _)).trans e6, rfl, hs', dops', sL, eB, ops, _, sb, _, rfl, by simp only [hitems], rfl, ws, hP, rfl, rfl,
+    fun n id h => e6.3 n id (e2.3 n id h)⟩
 
 /-! ### all case handlers -/
 
@@ -139,11 +141,11 @@ def CasesC (cx : Cx) (fuel : Nat) (sw : String) (cs : Cases) (run : Nat → List
     SameStk s s' ∧ (NoNone st.defaultOps → NoNone st'.defaultOps) ∧
     ∃ Hn Cn, st'.hdrJumps = st.hdrJumps ++ Hn ∧ st'.caseOps = st.caseOps ++ Cn ∧ NoNone Hn ∧ NoNone Cn ∧
       (st'.waiting = [] →
-        SwSem cx fuel env endL s.loops s.cases (wSrc st.waiting (toSrcCases sw cs)) Hn Cn st.defaultOps st'.defaultOps)
+        SwSem cx fuel env endL s.loops s.cases s' (wSrc st.waiting (toSrcCases sw cs)) Hn Cn st.defaultOps st'.defaultOps)
 
-theorem SwSem.stk {cx : Cx} {fuel : Nat} {env : Src.Env} {endL : Nat} {L L' : List (Nat × Nat)} {Cs Cs' : List Nat} {SC : Src.Cases}
-    {Hn Cn dIn dOut : List LItem} (h : SwSem cx fuel env endL L Cs SC Hn Cn dIn dOut) (hl : L = L') (hc : Cs = Cs') :
-    SwSem cx fuel env endL L' Cs' SC Hn Cn dIn dOut := by
+theorem SwSem.stk {cx : Cx} {fuel : Nat} {env : Src.Env} {endL : Nat} {L L' : List (Nat × Nat)} {Cs Cs' : List Nat} {sE : St} {SC : Src.Cases}
+    {Hn Cn dIn dOut : List LItem} (h : SwSem cx fuel env endL L Cs sE SC Hn Cn dIn dOut) (hl : L = L') (hc : Cs = Cs') :
+    SwSem cx fuel env endL L' Cs' sE SC Hn Cn dIn dOut := by
   subst hl hc; exact h
 
 theorem isTest_caseName (sw name : String) (h : isTest name = true) : isTest (caseName sw name) = true := by
